@@ -13,7 +13,8 @@ CLAIMED = {
              note='Array length enumerated up to the bound (constructor index arithmetic checked for all n >= 0 except the count quotient); element values modelled as reals; trusts clang IR == g++ build (differential self-test), symir, z3.'),
  'C01': dict(design='4/C01', text='Per transform length (quick: every n in 1..42 plus 43, 48, 64; real/rfft/plan/pad-truncate/czt variants) the compiled code runs once with all samples symbolic; '
              'z3 QF_LRA certifies per output that the code is a fixed rational matrix for every input, and the exact Frobenius distance of that matrix to the 50-digit DFT / chirp-z matrix is '
-             'within half of 32*n*eps*sqrt(n): the relative-l2 statement then holds for every input up to data-path rounding. Violations are replayed natively on the worst-case input direction.',
+             'within half of 32*n*eps*sqrt(n): the relative-l2 statement then holds for every input up to data-path rounding. Violations are replayed natively on the worst-case input direction. Long transforms (1221 = 33x37, 1024, real 1368; thorough up to 2310): one symbolic run shows linearity on a single path, the transfer matrix is then extracted in double arithmetic and compared with the DFT matrix. '
+             'CztPlan constructor at n = 46349 (index products reach 2^31) executed through the IR up to its first FFT with every overflow / bounds obligation active.',
              note='REAL arithmetic for the data path (rounding outside the claim, twiddle/chirp table error inside); lengths above the bound not covered; czt accuracy stated relative to ||R||_F/sqrt(n).'),
  'C02': dict(design='4/C02', text='Same P-LIN certification for ifft / IfftPlan / ifft(fft(x)) (vs inverse DFT / identity, half of 64*n*eps), irfft in both input forms and irfft(rfft(x)) for every even n <= 48 (quick), '
              'odd n: the single path must end in a throw with all memory obligations met; istft(stft(x)) for every (window, overlap, nfft, range, method) tuple of the grid that the real iscola accepts: '
@@ -34,7 +35,7 @@ CLAIMED = {
              note='REAL arithmetic (rounding of the data path outside the claim); sizes bounded as stated.'),
  'C16': dict(design='4/C16', text='All element values symbolic reals: every feasible comparison path through the compiled std::sort / MedianFilter insertion code (all weak orderings, ties included) is enumerated '
              'and z3 decides on each path: sort = ordered permutation with sorted[i] is x[idx[i]]; median / MedianFilter / medfilt = counting characterisation of the window median (symbolic initial history); '
-             'Spearman / Kendall = O(n^2) definition for every pair of strict orderings (n <= 4 quick, 5 thorough); Pearson = polynomial identity of numerator and radicand.',
+             'Spearman / Kendall = O(n^2) definition for every pair of strict orderings (n <= 4 quick, 5 thorough); Pearson = polynomial identity of numerator and radicand; Spearman at n = 1861 (sum d^2 > 2^31) and Kendall at n = 300 on reversed / identical / interleaved orders through the interpreted IR with overflow obligations.',
              note='n <= 5 (6) for sort/median, orders 3-5(6) for the filters; values compared as reals (no NaN); Pearson range [-1,1] not decided.'),
  'C08': dict(design='4/C08', text='FIRDecimator / FIRInterpolator / FIRRateConverter / FIRResampler for every reduced L/M with L,M <= 4 (quick) / 8 (+ audio ratios, thorough), random symmetric taps and the default design: '
              'all input samples symbolic, z3 (QF_LRA) certifies the code as a fixed matrix which must equal - at one phase shared by one-call, two-call and three-call framings - the exact matrix of insert L-1 zeros / '
